@@ -151,7 +151,9 @@ Definition check_corr (c : case) : bool :=
 Definition samples_of (sr : Q) (t : tree) : Q := (duration t * sr)%Q.
 
 (* when is the rewrite entitled to fail, as a predicate on the input alone *)
-Definition err_allowed (input : tree) (path : list nat) (o : opk) (e : err) : bool :=
+(* [vol]: the program has volatile repetition counts, which the tree description does not show: a node with measurements
+   whose single child has a volatile count is not mergeable, so the two clauses that depend on mergeability are relaxed *)
+Definition err_allowed (vol : bool) (input : tree) (path : list nat) (o : opk) (e : err) : bool :=
   match node_at path input with
   | None => false
   | Some n =>
@@ -164,7 +166,7 @@ Definition err_allowed (input : tree) (path : list nat) (o : opk) (e : err) : bo
                                    | None => false
                                    end
       | OSplit (Some i), EIndex => match py_index (length (t_ch n)) i with None => true | Some _ => false end
-      | OMerge, EAssert => negb (mergeable n) || has_wf n
+      | OMerge, EAssert => negb (mergeable n) || has_wf n || (vol && has_meas n)
       | OMakeCompat ml q sr, EValue =>
           let s := samples_of sr n in
           negb (q_is_int s) || negb (Qle_bool (inject_Z ml) s) || ((0 <? q) && negb (q_int s mod q =? 0))
@@ -174,7 +176,7 @@ Definition err_allowed (input : tree) (path : list nat) (o : opk) (e : err) : bo
       end
   end.
 
-Definition post (o : opk) (n_before n : tree) (dp : Z) (bal : bool) : bool :=
+Definition post (vol : bool) (o : opk) (n_before n : tree) (dp : Z) (bal : bool) : bool :=
   match o with
   | OFlatten d =>
       if 1 <=? d then is_leaf n || ((dp =? d) && bal && (depth n =? d) && balanced n)
@@ -183,11 +185,11 @@ Definition post (o : opk) (n_before n : tree) (dp : Z) (bal : bool) : bool :=
   | OUnrollChildren => t_rep n =? 1
   | OEncapsulate => (depth n =? depth n_before + 1) && (length (t_ch n) =? 1)%nat
   | OSplit _ => (length (t_ch n) =? S (length (t_ch n_before)))%nat
-  | OCleanup rm mg => (if rm then no_empty_below n else true) && (if mg then negb (mergeable n) else true)
+  | OCleanup rm mg => (if rm then no_empty_below n else true) && (if mg then negb (mergeable n) || (vol && has_meas n) else true)
   | _ => true
   end.
 
-Definition spec_step (input : tree) (path : list nat) (o : opk) (impl : obs) : bool :=
+Definition spec_step (vol : bool) (input : tree) (path : list nat) (o : opk) (impl : obs) : bool :=
   match impl with
   | ObsOk after dur dp bal =>
       pieces_equivb (pieces after) (pieces input)
@@ -195,21 +197,21 @@ Definition spec_step (input : tree) (path : list nat) (o : opk) (impl : obs) : b
       && Qeq_bool dur (duration input)
       && match o, node_at path input, node_at path after with
          | OUnroll, _, _ => true
-         | _, Some nb, Some n => post o nb n dp bal
+         | _, Some nb, Some n => post vol o nb n dp bal
          | _, _, _ => false
          end
   | ObsErr e after =>
-      err_allowed input path o e && pieces_equivb (pieces after) (pieces input)
+      err_allowed vol input path o e && pieces_equivb (pieces after) (pieces input)
       && Qeq_bool (duration after) (duration input)
   end.
 
 Definition check_spec (c : case) : bool :=
   match c with
-  | CRewrite input path o impl => spec_step input path o impl
+  | CRewrite input path o impl => spec_step false input path o impl
   | CSeq input prefix mid path o impl =>
       pieces_equivb (pieces mid) (pieces input) && Qeq_bool (duration mid) (duration input)
-      && spec_step mid path o impl
-  | CSpecOnly input path o impl => spec_step input path o impl
+      && spec_step false mid path o impl
+  | CSpecOnly input path o impl => spec_step true input path o impl
   | CToWf input impl =>
       match impl with
       | Ok x => pieces_equivb (wf_pieces x) (pieces input) && Qeq_bool (wf_dur x) (duration input)
